@@ -278,13 +278,17 @@ def classify(ob, r):
 
 
 def props_of_label(ob, key):
+    """properties a labelled assertion bears on: the property named by its prefix, plus the properties the
+    obligation declares all of its assertions relevant for (also_for)"""
     lp = ob.get("label_props", {})
     if key in lp:
         return lp[key]
     m = LABEL_RE.match(key)
-    if m:
-        return [m.group(1)]
-    return list(ob["props"])
+    out = [m.group(1)] if m else list(ob["props"])
+    for p in ob.get("also_for", []):
+        if p not in out:
+            out.append(p)
+    return out
 
 
 def load_known():
